@@ -970,7 +970,8 @@ func run(env *drive.Env) error {
 		}
 		return nil
 	}
-	// all=1: every description goes through all entry points in both chain states; all=0: VerifyHeader, VerifyHeaders and
+	// all=1: every description goes through all entry points, and through VerifyHeader / VerifyHeaders (every third: all of them) with
+	// the chain state "honest header known"; all=0: VerifyHeader, VerifyHeaders and
 	// VerifySideChainHeader see every sixth, VerifyAcHeader every third, the "known header" chain state every description of forging
 	// depth <= 1 and every third of the others
 	all := env.Opt("all", "1") == "1"
@@ -985,7 +986,7 @@ func run(env *drive.Env) error {
 			return err
 		}
 		w.T = env.T
-		env.Emit(w.verify(&d, all || env.T%6 == 0, all || env.T%3 == 0, all || d.D <= 1 || env.T%3 == 0, all))
+		env.Emit(w.verify(&d, all || env.T%6 == 0, all || env.T%3 == 0, all || d.D <= 1 || env.T%3 == 0, all && env.T%3 == 0))
 	}
 	return nil
 }
